@@ -299,3 +299,10 @@ def run(ctx):
                             ctx.where(PB, narrow[0][1]), key='CLOSURE:%s:nested-integer-as-bigint' % ent['parser'])
                 else:
                     ctx.ok('C01.4-nested-integers', inst, '%d nested integer match(es) in %s accept BigInt' % (n_sw, ent['parser'].rsplit('::', 1)[1]), ctx.where(PB))
+
+    # the k-th value a parser reads lands in the field the encoder writes k-th
+    from ..fieldorder import check_field_order
+    ctx.rule('C01.2-field-order', 'for every structure built by a parser through its constructor (funs, exports, pids, ports, references): the constructor argument for field f derives from the wire read '
+             'at the position where the encoder writes f; constructor parameter->field map from the constructor body, read positions from the parser\'s data flow, write order from the encoder\'s success paths', floor=10)
+    n_fo = check_field_order(ctx, 'C01.2-field-order')
+    ctx.anchor(n_fo >= 10, 'parsers that build a structure through erltf::types::*::new with an encoder for it')
